@@ -89,7 +89,7 @@ BOUNDS = {
         GenSeeds={1, 2, 3}, GenMax=6, LawMax=3, LawLen=4,
         ScaleNs={(1 << 20) - 1, 1 << 20, (1 << 20) + 1000, (1 << 21) + 7}, IdxScaleImax={1000000, 2000000, 3000017},
         SmpScaleNs={1000000, (1 << 20) + 1},
-        CholScaleKs={2, 3, 4, 8}, WldGrids={11, 7, 54}, WldPVals={0, 1, 2}, WldMaxCalls=3,
+        CholScaleKs={2, 3, 4, 8}, WldGrids={11, 7}, WldPVals={0, 1, 2}, WldMaxCalls=3,
         WldForms={"bound", "bound_call", "lambda", "closure", "table"}),
 }
 INVARIANTS = ["SmpTheorems", "SmpMechRefines", "CholFactorIsL0", "CholTheorems", "CholMechRefines", "CholScaleLaw", "WldFreshWorld",
@@ -1154,10 +1154,12 @@ def judge(ctx, recs, what, leads=None, cap_per_sig=4):
         ctx.traces = saved
         for r in fresh:
             byid[r["id"]] = r
-        dropped = [rid for rid in again if rid not in rej2]
-        if dropped and leads is not None:
-            leads["lead_session_rejected_only_after_other_sessions_in_the_worker"] = len(dropped)
+        dropped = [rid for rid in again if rid not in rej2]          # (beyond the first 40: not re-executed, not reported)
+        unconfirmed = [rid for rid in again[:40] if rid not in rej2]
+        if unconfirmed and leads is not None:
+            leads["lead_session_rejected_only_after_other_sessions_in_the_worker"] = len(unconfirmed)
         rejects = {rid: (rej2[rid] if rid in rej2 else v) for rid, v in rejects.items() if rid not in dropped}
+    for rid in sorted(rejects):
         r = byid[rid]
         for cl, k in rejects[rid]:
             if cl in ("malformed_case", "unknown_op"):
